@@ -46,6 +46,11 @@ func (m *Map[K, V]) LoadOrStore(key K, value V) (actual V, loaded bool) {
 	}
 	verifHook("LoadOrStore.gap", m)
 	m.mutex.Lock()
+	// another goroutine may have stored the key between the read-locked lookup and here
+	if v, ok = m.data[key]; ok {
+		m.mutex.Unlock()
+		return v, true
+	}
 	m.data[key] = value
 	m.mutex.Unlock()
 	return value, false
